@@ -3,6 +3,6 @@
 set -e
 cd "$(dirname "$0")"
 export CARGO_NET_OFFLINE=true
-python3 translator/extract.py /repo lean/Tv/Generated.lean
+python3 translator/extract.py ${TV_REPO:-/repo} lean/Tv/Generated.lean
 (cd lean && lake build Tv tvmodel)
 (cd harness && cargo build)
